@@ -35,6 +35,8 @@ CLAIM = dict(
          "items, EndpointPrefix as an injective renaming of endpoint numbers; rules with several variables in one segment (10..13 variables, up to 12 in one segment) are outside the model's grammar - one variable per "
          "segment, so the matcher's ordering of a part's regex groups by name is the identity in the model - and are checked on the implementation "
          "only (build -> match returns the built values; this found the name-ordering defect fixed in the repository); "
+         "float(min=, max=) bounds are not in the model's float converter: fractional bounds are checked on the implementation against the "
+         "declarative meaning min <= v <= max (converter round trip and build -> match through a rule); "
          "that a built path has no '?' is a hypothesis of the split clause "
          "of C04_build_match_extras (AnyConverter.to_url does not quote its items); host_matching builds are modelled "
          "and compared (MapAdapter._partial_build's preference for the bound host), the map-level theorems cover host parts through dom_built.",
@@ -551,6 +553,7 @@ def run(chk: Check) -> None:
                     chk.count(f"build:extras:sort{srt}")
 
     wide_rules_campaign(chk, 160 if quick else 2400)
+    float_bounds_campaign(chk, 300 if quick else 4500)
 
     # ---------------- model side
     exe = chk.build_modelrun("C04")
@@ -626,6 +629,71 @@ def wide_rules_campaign(chk: Check, n: int) -> None:
             continue
         if a.build(got[0], dict(got[1])) != url:
             chk.fail("match-then-build-wide", f"rule {rule!r}: rebuilt URL differs from {url!r}", info)
+
+
+def float_bounds_campaign(chk: Check, n: int) -> None:
+    """float converters with fractional min / max (the model's float converter has no bounds: checked on the implementation).
+    Declarative meaning: a value is admitted iff min <= value <= max; only to_python consults the bounds, so every admitted
+    value must build to a URL that matches back to it, and every other value must not match."""
+    from werkzeug.routing import Map, Rule, ValidationError
+    from werkzeug.routing import converters as wc
+    rng = chk.rng
+    dummy = Map([])
+    for _ in range(n):
+        signed = rng.random() < 0.4
+        lo = rng.choice([None, None, 0.5, 1.25, 2.5, -1.5, -0.25]) if signed else rng.choice([None, None, 0.5, 1.25, 2.5])
+        hi = rng.choice([None, 2.5, 3.75, 10.5, 0.75, -0.5 if signed else 1.5])
+        if lo is not None and hi is not None and lo > hi:
+            lo, hi = hi, lo
+        eps = rng.choice([0.25, 0.125, 0.5])
+        pool = [x for b in (lo, hi) if b is not None for x in (b, b - eps, b + eps, float(int(b)), float(int(b)) + 1.0)] + [0.0, 1.0, 2.25, 100.5]
+        v = rng.choice(pool)
+        if v < 0 and not signed:
+            v = -v
+        admitted = (lo is None or v >= lo) and (hi is None or v <= hi)
+        info = {"converter": f"float(min={lo}, max={hi}, signed={signed})", "value": repr(v)}
+        co = wc.FloatConverter(dummy, min=lo, max=hi, signed=signed)
+        chk.count("float-bounds:" + ("admitted" if admitted else "outside"))
+        chk.case(("float-bounds", lo, hi, signed, v), nontrivial=True)
+        try:
+            u = co.to_url(v)
+            if re.compile(co.regex + r"\Z").match(u) is None:
+                if not (v < 0 and not signed):
+                    chk.fail("float-bounds", f"to_url({v!r}) = {u!r} is not in the converter's language", info)
+                continue
+            try:
+                back = co.to_python(u)
+            except ValidationError:
+                back = None
+        except Exception as e:  # noqa: BLE001
+            chk.fail("float-bounds", f"{type(e).__name__}: {e}", info)
+            continue
+        if admitted and back != v:
+            chk.fail("float-bounds-roundtrip", f"{info['converter']}: {v!r} is within the bounds, builds {u!r}, which converts back to {back!r}", info)
+        if not admitted and back is not None:
+            chk.fail("float-bounds-admits-outside", f"{info['converter']}: {v!r} is outside the bounds but {u!r} converts to {back!r}", info)
+        # through a rule (converter arguments in a rule string cannot be negative)
+        if (lo is None or lo >= 0) and (hi is None or hi >= 0):
+            args = ", ".join(f"{k}={x}" for k, x in (("min", lo), ("max", hi)) if x is not None)
+            if signed:
+                args = (args + ", " if args else "") + "signed=True"
+            rule = f"/ratio/<float({args}):v>" if args else "/ratio/<float:v>"
+            try:
+                a = Map([Rule(rule, endpoint="ratio")]).bind("example.com")
+                url = a.build("ratio", {"v": v})
+                try:
+                    got = a.match(url)
+                except Exception as e:  # noqa: BLE001
+                    got = type(e).__name__
+            except Exception as e:  # noqa: BLE001
+                chk.fail("float-bounds", f"rule {rule!r}: {type(e).__name__}: {e}", info)
+                continue
+            info2 = dict(info, map={"rules": [dict(rule=rule, endpoint="ratio", methods=None, strict_slashes=None, merge_slashes=None)], "strict_slashes": True,
+                                    "merge_slashes": True, "redirect_defaults": True, "host_matching": False}, adapter={"server": "example.com"}, path=url, method="GET")
+            if admitted and got != ("ratio", {"v": v}):
+                chk.fail("build-then-match-float-bounds", f"rule {rule!r}: build(v={v!r}) -> {url!r}, which answers {got!r}", info2)
+            if not admitted and got == ("ratio", {"v": v}):
+                chk.fail("float-bounds-admits-outside", f"rule {rule!r}: {url!r} matches although {v!r} is outside the bounds", info2)
 
 
 def main(chk: Check) -> None:
